@@ -59,6 +59,10 @@ impl<K> KeyDate<K> {
         &self.key
     }
 
+    pub(crate) fn entry_info(&self) -> &EntryInfo<K> {
+        &self.entry_info
+    }
+
     #[cfg(mini_moka_verif)]
     pub(crate) fn verif_info_ptr(&self) -> usize {
         &*self.entry_info as *const EntryInfo<K> as usize
